@@ -31,6 +31,7 @@ DevRotRenamesShared == {"RotRenamesShared"}
 DevRotTransformUnsorted == {"RotTransformUnsorted"}
 DevBootIgnoresSeed == {"BootIgnoresSeed"}
 DevComputeLoadsInput == {"ComputeLoadsInput"}
+DevRotDeserializeDropsSorted == {"RotDeserializeDropsSorted"}
 
 St == [m |-> m, r |-> r, snaps |-> snaps]
 \* one JSON line per explored transition (source state, action record, target state)
